@@ -211,7 +211,7 @@ def run(ctx: core.Check):
     ctx.assumptions = ["general (non-permutation) couplings are mixtures of permutations (Birkhoff) — cited, not proved",
                        "binary64 rounding not modelled; integer streams agree exactly for + - *, others within ulp tolerance",
                        "moments (LP) are stubbed in the harness process; they are C04's concern"]
-    ctx.lean_stage(["Pun.Lemmas.Frechet", "Pun.Lemmas.PBoxList", "Pun.Lemmas.PBoxFrechet", "Pun.Lemmas.PBoxMk", "Pun.Lemmas.PBoxNeg", "Pun.Props.C02"])
+    ctx.lean_stage(["Pun.Lemmas.Frechet", "Pun.Lemmas.PBoxList", "Pun.Lemmas.PBoxFrechet", "Pun.Lemmas.PBoxMk", "Pun.Lemmas.PBoxNeg", "Pun.Lemmas.PBoxFrechet2", "Pun.Lemmas.PBoxRecip", "Pun.Props.C02"])
     cases = gen_cases(ctx)
     replies = core.model_batch("C02", [wire(c) for c in cases])
     rng = ctx.rng
